@@ -51,7 +51,7 @@ def _audit(event, args):
         return
     fs._in_audit = True
     try:
-        for a in args[:2]:
+        for a in args[:1 if event in ("open", "os.remove", "os.mkdir", "os.rmdir", "os.truncate", "os.chmod", "os.utime") else 2]:
             if isinstance(a, (str, bytes, os.PathLike)) and fs._under_root(a):
                 fs.audit_log.append((event, fs._rel(a)))
                 break
